@@ -4,8 +4,12 @@ package query
 //verif:pkg lib/query
 //verif:setup VerifC09Setup
 //verif:harness VerifC09Transactions mode=bv tier=quick split=8
+//verif:harness VerifC09ForUpdateHoldsAll mode=bv tier=quick
+//verif:harness VerifC09ReadsRespectWriters mode=bv tier=quick
 
 import (
+	"time"
+
 	"github.com/mithrandie/csvq/lib/parser"
 )
 
@@ -55,5 +59,69 @@ func VerifC09Transactions() {
 	verifAssert("every committed increment is in the table", verifFileRead("t.csv") == want)
 	verifAssert("no control files are left behind", verifFileList() == "t.csv")
 	verifObserveBool("both", ok[0] && ok[1])
+	verifReach("end")
+}
+
+// SELECT ... FOR UPDATE holds every table the query reads - both operands of a set operator, every
+// table of a join - until the transaction ends: their .lock files exist afterwards (so no other
+// process can read or write them) and are gone after ROLLBACK.
+func VerifC09ForUpdateHoldsAll() {
+	verifFileWrite("a.csv", "n\n1\n")
+	verifFileWrite("b.csv", "n\n2\n")
+	src := []string{
+		"select n from a for update",
+		"select n from a union select n from b for update",
+		"select n from a union all select n from b for update",
+		"select n from a except select n from b for update",
+		"select a.n from a, b for update",
+		"select a.n from a inner join b on a.n < b.n for update",
+	}
+	qi := verifChoice("query", len(src))
+	tx := verifNewTx()
+	tx.Flags.Quiet = true
+	proc := NewProcessor(tx)
+	_, err := proc.Execute(verifCtx(), verifParse(src[qi]+";"))
+	verifAssert("the query runs", err == nil)
+	verifAssert("a is held", verifFileExists(".a.csv.lock"))
+	if qi > 0 {
+		verifAssert("b is held as well", verifFileExists(".b.csv.lock"))
+	}
+	_, err = proc.Execute(verifCtx(), verifParse("rollback;"))
+	verifAssert("rollback", err == nil)
+	_ = proc.ReleaseResourcesWithErrors()
+	verifAssert("nothing is held afterwards", verifFileList() == "a.csv\nb.csv")
+	verifObserve("query", int64(qi))
+	verifReach("end")
+}
+
+// While another process holds a table for update (its .lock file exists), this process cannot read
+// the file in any way - as a table, through a table function, or through an inline table function:
+// the read ends with the lock-wait timeout (deadline from the timer model), it does not return data.
+func VerifC09ReadsRespectWriters() {
+	verifFileWrite("t.csv", "n\n1\n")
+	verifFileWrite(".t.csv.lock", "")
+	src := []string{
+		"select n from t",
+		"select * from csv(',', `t.csv`)",
+		"select * from csv_inline(',', `t.csv`)",
+		"select (select count(*) from csv_inline(',', `t.csv`)) from dual",
+	}
+	qi := verifChoice("query", len(src))
+	tx := verifNewTx()
+	tx.Flags.Quiet = true
+	tx.WaitTimeout, tx.RetryDelay = 50*time.Millisecond, time.Millisecond
+	proc := NewProcessor(tx)
+	verifTimers(true)
+	_, err := proc.Execute(ContextForStoringResults(verifCtx()), verifParse(src[qi]+";"))
+	verifTimers(false)
+	verifAssert("a table held by a writer cannot be read", err != nil)
+	if err != nil {
+		_, fatal := err.(*FatalError)
+		verifAssert("an ordinary error", !fatal)
+	}
+	_ = proc.ReleaseResourcesWithErrors()
+	verifFileRemove(".t.csv.lock")
+	verifAssert("no control files of this process are left", verifFileList() == "t.csv")
+	verifObserve("query", int64(qi))
 	verifReach("end")
 }
